@@ -18,7 +18,7 @@ RULE = ("exhaustive small scope: request sizes n in 1..6, every script of length
         "crossing the 60000-byte chunk cap). distinct = (n, script, mode) tuples; non-trivial = scripts with at least one event")
 ASSUMPTIONS = ["fake sockets obey OS realism rules: EOF is sticky; n=0 judged leniently",
                "retry back-off sleeps are replaced by no-ops (socketutil.time swapped from the harness)"]
-REQUIRED_REACH = ["recv_ok", "recv_eof_error", "recv_fatal_error", "recv_timeout_error", "send_ok", "send_error", "retry_transparent"]
+REQUIRED_REACH = ["real_socket_high_fd_ok", "real_socket_low_fd_ok", "recv_ok", "recv_eof_error", "recv_fatal_error", "recv_timeout_error", "send_ok", "send_error", "retry_transparent"]
 SHARD_TIMEOUT = {"quick": 200, "thorough": 2400}
 
 R_ALPHA = [("d", 1), ("d", 2), ("rest",), ("e", errno.EINTR), ("e", errno.EAGAIN), ("e", errno.EINPROGRESS),
@@ -319,6 +319,7 @@ def plan(tier, seed):
     nrand = 5 if tier == "quick" else 16
     for i in range(nrand):
         shards.append({"kind": "random", "i": i, "n": 1200 if tier == "quick" else 14000})
+    shards.append({"kind": "real"})
     if tier == "thorough":
         shards.append({"kind": "e10"})
     return shards
@@ -337,7 +338,90 @@ def scripts_for(alpha, L, prefix):
     return out
 
 
+def real_phase(rec):
+    """Operating-system sockets instead of scripted ones: non-blocking socket pairs (so the kernel itself produces the 'not ready yet'
+    errors), a peer that feeds / drains slowly from another thread, descriptors both in the usual low range and far above 1024 (a server
+    with many connections). Every transfer completes with exactly the bytes that were sent."""
+    import fcntl
+    import socket as _s
+    import threading
+    import time as _time
+    from Pyro5 import socketutil
+    core.assert_repo()
+    socketutil.time = __import__("time")
+    r = gen.rng(rec.seed, "c17", "real")
+
+    def pair(high):
+        a, b = _s.socketpair()
+        if high:
+            fd = fcntl.fcntl(a.fileno(), fcntl.F_DUPFD, 1100 + r.randrange(0, 3000))
+            a2 = _s.socket(fileno=fd)
+            a.close()
+            a = a2
+        a.setblocking(False)
+        return a, b
+    for i in range(24):
+        high = i % 2 == 1
+        n = r.choice([1, 7, 4096, 70000, 300000])
+        data = bytes((j * 37 + i) & 255 for j in range(n))
+        direction = "recv" if i % 4 < 2 else "send"
+        key = ("real", direction, high, n)
+        rec.case(key, nontrivial=True)
+        a, b = pair(high)
+        got = []
+        try:
+            if direction == "recv":
+                def feeder():
+                    pos = 0
+                    while pos < n:
+                        k = r.choice([1, 100, 5000, 65536])
+                        b.sendall(data[pos:pos + k])
+                        pos += k
+                        _time.sleep(0.002)
+                t = threading.Thread(target=feeder, daemon=True)
+                t.start()
+                try:
+                    out = bytes(socketutil.receive_data(a, n))
+                except Exception as x:
+                    rec.violation("real-socket-transfer-failed", "receive_data on a non-blocking OS socket (fd %d) fed slowly by its peer raised %r" % (a.fileno(), x), key)
+                    return
+                t.join(10)
+                if out != data:
+                    rec.violation("real-socket-transfer-failed", "receive_data on an OS socket (fd %d) returned other bytes than were sent" % a.fileno(), key)
+                    return
+            else:
+                a.setsockopt(_s.SOL_SOCKET, _s.SO_SNDBUF, 4096)
+
+                def drainer():
+                    left = n
+                    while left > 0:
+                        _time.sleep(0.001)
+                        chunk = b.recv(min(left, r.choice([100, 9000, 70000])))
+                        if not chunk:
+                            break
+                        got.append(chunk)
+                        left -= len(chunk)
+                t = threading.Thread(target=drainer, daemon=True)
+                t.start()
+                try:
+                    socketutil.send_data(a, data)
+                except Exception as x:
+                    rec.violation("real-socket-transfer-failed", "send_data on a non-blocking OS socket (fd %d) drained slowly by its peer raised %r" % (a.fileno(), x), key)
+                    return
+                t.join(10)
+                if b"".join(got) != data:
+                    rec.violation("real-socket-transfer-failed", "send_data on an OS socket (fd %d): the peer received other bytes than were sent" % a.fileno(), key)
+                    return
+            rec.count("real_socket_high_fd_ok" if high else "real_socket_low_fd_ok")
+        finally:
+            a.close()
+            b.close()
+
+
 def run_shard(shard, rec):
+    if shard.get("kind") == "real":
+        real_phase(rec)
+        return
     if shard.get("kind") == "e10":
         from vlib import e10
         e10.run_e10("C17", rec)
@@ -430,6 +514,9 @@ def run_shard(shard, rec):
 
 
 def replay(payload, rec):
+    if payload[0] == "real":
+        real_phase(rec)
+        return
     env = setup()
     rec.case(payload)
     if payload[0] == "r":
